@@ -251,6 +251,23 @@ func main() {
 			hs = append(hs, vc.HexS(h))
 		}
 		g.out.Line(hs...)
+		// what ReservedHosts() hands out belongs to the caller: a caller that overwrites, sorts or re-uses the returned slice
+		// must not change what Resolve (or the next caller) sees.  Done BEFORE every case of this run; the list is read again.
+		{
+			mine := deeplinks.ReservedHosts()
+			for i := range mine {
+				mine[i] = "mirror-" + mine[i] + ".example.org"
+			}
+			if len(mine) > 1 {
+				mine[0], mine[len(mine)-1] = mine[len(mine)-1], mine[0]
+			}
+			_ = append(mine[:0], "evil.example.org")
+			again := []string{"#hosts-after-caller-wrote-into-the-returned-slice"}
+			for _, h := range deeplinks.ReservedHosts() {
+				again = append(again, vc.HexS(h))
+			}
+			g.out.Line(again...)
+		}
 		// corpus first: minimised failures found earlier
 		for _, l := range []string{"t.me", "telegram.me", "t.me:443", "tx.me?x", "telesco.pe#f", "t.me/", "/t.me/x", "T.me/x",
 			// hosts whose port part is not a port: URL.Hostname keeps everything up to the LAST colon only if digits follow
